@@ -280,6 +280,12 @@ static void do_meta (void)
 			if (r) { SF_CUE_POINT *cp = (SF_CUE_POINT *) (b + 4) ; printf (" cues=") ;
 				for (uint32_t k = 0 ; k < cnt ; k++) printf ("%s%d:%u:%u:%s", k ? "," : "", cp [k].indx, cp [k].position, cp [k].sample_offset, cp [k].name [0] ? cp [k].name : "-") ; }
 			guarded_free (b) ;
+			/* the way applications call it: a fixed SF_CUES (100 slots), whatever the file holds */
+			SF_CUES *fixed = guarded_alloc (sizeof (SF_CUES)) ; memset (fixed, 0, sizeof (SF_CUES)) ;
+			int r2 = sf_command (f, SFC_GET_CUE, fixed, sizeof (SF_CUES)) ;
+			printf (" fixedret=%d fixedcount=%u", r2, r2 ? fixed->cue_count : 0) ;
+			if (! guard_ok (fixed, sizeof (SF_CUES))) printf (" guard=0") ;
+			guarded_free (fixed) ;
 			}
 		}
 	else if (! strcmp (kind, "inst"))
